@@ -189,15 +189,16 @@ def h_handshake(ctx, script):
   ctx.check('close is idempotent for events', sum(1 for x in log if x[0] == 'down') == downs)
 
 
-def handshake(ctx, of01, of, sock, con, dpid, addrs):
+def handshake(ctx, of01, of, sock, con, dpid, addrs, upto='barrier'):
   feed(con, sock, of.ofp_hello())
   fr = of.ofp_features_reply(datapath_id=dpid)
   feed(con, sock, fr)
+  if upto == 'features': return        # the datapath id is known, the handshake is not finished
   bx = barrier_xid(of, of01, sock)
   feed(con, sock, of.ofp_barrier_reply(xid=bx))
 
 
-def h_registry(ctx, order):
+def h_registry(ctx, order, half=False):
   """order: string over 'a' (close connection 1), 'b' (close connection 2), 's' (sendToDPID probe) applied after both handshakes;
   connection 2 handshakes after connection 1 (reconnect when the dpids are equal)"""
   HOLD[0] = False; HELD[0] = None          # (module state of feed(): a path aborted inside a coalesced chunk must not leak into this one)
@@ -208,17 +209,18 @@ def h_registry(ctx, order):
   handshake(ctx, of01, of, s1, c1, d1, addrs)
   ctx.check('c1 registered', nexus.getConnection(d1) is c1)
   s2 = env.FakeSocket(eof=False); c2 = of01.Connection(s2)
-  handshake(ctx, of01, of, s2, c2, d2, addrs)
+  # half: the second connection only gets as far as its features reply (dpid known, never announced) before it is lost
+  handshake(ctx, of01, of, s2, c2, d2, addrs, upto='features' if half else 'barrier')
   same = bool(d1 == d2)
   ctx.witness('same-dpid' if same else 'different-dpid')
   live = {1: True, 2: True}
   def expected(d):
     """most recent live handshaken connection for dpid d"""
-    if live[2] and bool(d == d2): return c2
+    if live[2] and not half and bool(d == d2): return c2
     if live[1] and bool(d == d1): return c1
     return None
   def check_registry(tag):
-    if same and live[1] and not live[2]:
+    if same and live[1] and not live[2] and not half:
       tag = '[stale-survivor] ' + tag      # newer connection of the same dpid died first, the stale one is still open (known finding)
     for name, d in (('d1', d1), ('d2', d2)):
       ctx.check('%s: registry maps %s to the most recent live connection' % (tag, name), nexus.getConnection(d) is expected(d))
@@ -236,15 +238,15 @@ def h_registry(ctx, order):
       n1, n2 = len(s1.sent), len(s2.sent)
       r = nexus.sendToDPID(probe, of.ofp_echo_request(xid=0x5e5e).pack())
       tgt = expected(probe)
-      pre = '[stale-survivor] ' if (same and live[1] and not live[2]) else ''
+      pre = '[stale-survivor] ' if (same and live[1] and not live[2] and not half) else ''
       ctx.check(pre + 'sendToDPID result', r == (tgt is not None))
       ctx.check(pre + 'sendToDPID reaches only the most recent live connection',
                 (len(s1.sent) - n1, len(s2.sent) - n2) == ((1, 0) if tgt is c1 else (0, 1) if tgt is c2 else (0, 0)))
     check_registry('after %s#%d' % (ch, k))
   downs = [x[1] for x in log if x[0] == 'down']
-  ctx.check('ConnectionDown once per lost connection', downs.count(c1) == (0 if live[1] else 1) and downs.count(c2) == (0 if live[2] else 1))
+  ctx.check('ConnectionDown once per lost connection', downs.count(c1) == (0 if live[1] else 1) and (downs.count(c2) <= 1 if half else downs.count(c2) == (0 if live[2] else 1)))
   ups = [x[1] for x in log if x[0] == 'up']
-  ctx.check('ConnectionUp once per connection', ups.count(c1) == 1 and ups.count(c2) == 1)
+  ctx.check('ConnectionUp once per connection', ups.count(c1) == 1 and ups.count(c2) == (0 if half else 1))
 
 
 def obligations(tier):
@@ -257,6 +259,6 @@ def obligations(tier):
   return [
     Obligation('O1_handshake', h_handshake, [dict(script=s) for s in scripts], witnesses=('up', 'lost', 'bad-barrier', 'coalesced'), max_decisions=20000,
                desc='ConnectionUp/Down exactly once, ordering of deferred port-status, registry entry, for each handshake script'),
-    Obligation('O2_registry', h_registry, [dict(order=o) for o in orders], witnesses=('same-dpid', 'different-dpid'), max_decisions=20000,
+    Obligation('O2_registry', h_registry, [dict(order=o) for o in orders] + [dict(order=o, half=True) for o in ('bs', 'sbs', 'bas', 'abs')], witnesses=('same-dpid', 'different-dpid'), max_decisions=20000,
                desc='two connections with possibly equal dpids: registry == most recent live handshaken connection; sendToDPID target'),
   ]
